@@ -83,4 +83,15 @@ theorem delay_to_pull_defaults : delayToPullDefaultSteps = 1 ∧ delayToPullDefa
 
 theorem hierarchy : timeDelayAdapterIsITimeDelay = true ∧ timeCachingIsNoBranch = true := by decide
 
+/-- C19: the adapters carrying the no-branch marker are the time-caching ones and DelayToPull -/
+theorem nobranch_names :
+    (classTable.filter (·.noBranch)).map (·.name) =
+      ["NextTime", "PreviousTime", "LinearTime", "StackTime", "StepTime", "DelayToPull", "AvgOverTime", "SumOverTime"] := by
+  decide
+
+/-- C19: no adapter is static; `is_static` of a slot is the constructor's flag (Input/Output/CallbackInput with and
+    without `static=True`, CallbackOutput never) -/
+theorem static_flags :
+    adapterStaticNames = [] ∧ slotStaticFlags = [true, false, true, false, true, false] := by decide
+
 end Finam.Props.Gen
